@@ -322,7 +322,9 @@ def run(ctx):
             ctx.sample({"config": list(cfg), "replay": mode, "first_requests": bodies[:4]})
     # first-use races: a FRESH dispatcher receives its first requests from three threads at once while one of them is
     # parked at one source line (every line the dispatching threads were seen executing above, in turn)
-    pts = sorted(set((q, l) for (q, l, r) in inj.seen if r == "client"))
+    # (functions are learned, their statement lines enumerated statically: every shard partitions the same list)
+    quals = set(q for (q, l, r) in inj.seen if r == "client")
+    pts = sorted(set((q, l) for mod in (S, J, C, JC) for (q, l) in inject.statement_lines(mod) if q in quals))
     ctx.counters["first-use-stall-points-enumerated"] = len(pts)
     mine = [pt for i, pt in enumerate(pts) if ctx.mine(i)]
     rng.shuffle(mine)
